@@ -167,7 +167,10 @@ fn random_walk<T: LabelType + Default + 'static>(seed: u64, nlabels: usize, len:
 /// 12 steps (events "x" in between only carry the operation, the judge steps its model on them)
 fn wide_walk(seed: u64, len: usize) -> Vec<String> {
     let mut rng = StdRng::seed_from_u64(seed);
-    let nl = rng.gen_range(36..=48);
+    // one walk in three is really wide (hubs with in- and out-degrees of 50-150), the others have 36-48 labels
+    let big = seed % 3 == 0;
+    let nl = if big { rng.gen_range(70..=160) } else { rng.gen_range(36..=48) };
+    let len = if big { len * 3 } else { len };
     let universe: Vec<usize> = (1..=nl).collect();
     let mk = |x: usize| x;
     let un = |x: &usize| *x;
@@ -195,12 +198,14 @@ fn wide_walk(seed: u64, len: usize) -> Vec<String> {
         let h = hubs[rng.gen_range(0..hubs.len())];
         let y = universe[rng.gen_range(0..nl)];
         let x: f64 = rng.gen();
-        let o = if x < 0.40 {
+        let o = if x < 0.27 {
             Op { op: "newatt".into(), a: h, b: y }
         } else if x < 0.50 {
             Op { op: "newatt".into(), a: y, b: h }
-        } else if x < 0.65 {
+        } else if x < 0.58 {
             Op { op: "rmatt".into(), a: h, b: y }
+        } else if x < 0.65 {
+            Op { op: "rmatt".into(), a: y, b: h }
         } else if x < 0.72 {
             Op { op: "rmarg".into(), a: y, b: y }
         } else if x < 0.82 {
